@@ -310,6 +310,24 @@ where
 /// Canonical structural hash of the diagram below `root` (level, children hashes, tags):
 /// equal functions under the same variable order have identical reduced diagrams and
 /// therefore identical hashes, in any manager of the same kind.
+/// Number of distinct nodes (inner nodes and terminals) reachable from `root`, by an explicit
+/// walk over the children with a hash set of node ids (independent of `node_count()`)
+pub fn walk_count<M: Manager>(m: &M, root: &M::Edge) -> usize {
+    let mut seen: HashSet<usize> = HashSet::new();
+    let mut stack = vec![m.clone_edge(root)];
+    while let Some(e) = stack.pop() {
+        if seen.insert(e.node_id()) {
+            if let Node::Inner(n) = m.get_node(&e) {
+                for c in n.children() {
+                    stack.push(m.clone_edge(&*c));
+                }
+            }
+        }
+        m.drop_edge(e);
+    }
+    seen.len()
+}
+
 pub fn struct_hash<M: Manager>(m: &M, root: &M::Edge, term: &impl Fn(&M::Terminal) -> u64) -> u64
 where
     M::InnerNode: HasLevel,
@@ -445,6 +463,10 @@ pub trait BoolKind: 'static {
     fn dddmp_import(mr: &MRef<Self>, data: &[u8], support_vars: Option<&[u32]>) -> Result<(DdHeader, Vec<Self::F>), String>;
     fn num_inner_nodes(mr: &MRef<Self>) -> usize {
         mr.with_manager_shared(|m| m.num_inner_nodes())
+    }
+    /// distinct reachable nodes by an explicit walk (see [`walk_count`])
+    fn walk_count(f: &Self::F) -> usize {
+        f.with_manager_shared(|m, e| walk_count(m, e))
     }
     fn gc_count(mr: &MRef<Self>) -> u64 {
         mr.with_manager_shared(|m| m.gc_count())
